@@ -1388,7 +1388,9 @@ impl RepDefUnraveler {
             }
             let num_new_lists = offsets.len() - old_offsets_len;
             offsets.push(to_offset(curlen)?);
-            rep_levels.truncate(offsets.len() - 1);
+            // Keep one entry per list of this unraveler (`offsets` may already hold the lists of
+            // earlier unravelers so its length says nothing about this one)
+            rep_levels.truncate(write_idx);
             if let Some(validity) = validity {
                 // Even though we don't have validity it is possible another unraveler did and so we need
                 // to push all valids
